@@ -2,7 +2,7 @@
    to the model's answer and, where the property has an executable spec, the spec's answer.
    Extracted to OCaml; the hand-written driver only parses and prints tokens. *)
 From Coq Require Import ZArith Bool List String.
-From HF Require Import MachInt Outcome GenConsts GenLeap GenUnits GenText Text Duration Epoch Gregorian TimeSeries F64 DurationF64 Views TextFmt SignedNs Civil LeapSpec.
+From HF Require Import MachInt Outcome GenConsts GenLeap GenUnits GenText Text Duration Epoch Gregorian TimeSeries F64 DurationF64 Views TextFmt TextParse GenUnicode SignedNs Civil LeapSpec.
 Import ListNotations.
 Open Scope Z_scope.
 
@@ -10,7 +10,7 @@ Open Scope Z_scope.
    negative (b = true) / non-negative (b = false) *)
 (* TRange lo hi: any integer in [lo, hi]; TFRange lo hi: an f64 bit pattern whose order-preserving integer image is in [lo, hi] *)
 Inductive tok := TZ (z : Z) | TL (l : list Z) | TPanic | TErr (k : Z) | TNoSpec | TSign (neg : bool) | TErrAny
-  | TRange (lo hi : Z) | TFRange (lo hi : Z).
+  | TRange (lo hi : Z) | TFRange (lo hi : Z) | TNoPanic.
 
 Definition tb (b : bool) : tok := TZ (if b then 1 else 0).
 Definition tcmp (c : comparison) : tok := TZ (match c with Lt => -1 | Eq => 0 | Gt => 1 end).
@@ -24,6 +24,8 @@ Definition pval (c n : Z) : Z := clamp (c * SNPC + n).
 Definition suf (u : Z) : Z := spec_unit_factor (unit_of_Z u).
 
 Definition nospec : list tok := [TNoSpec].
+(* spec "any value or error, never a panic" (C13) *)
+Definition nopanic : list tok := [TNoPanic].
 (* C14: when the true floor lies below MIN, "ceil = floor + |s|" and "least multiple above d" part ways
    (the returned floor is MIN, not a multiple); the property leaves ceil/round open there. *)
 Definition floor_saturates (d s : Z) : bool := negb (s =? 0) && (d - d mod Z.abs s <? MINV).
@@ -569,7 +571,7 @@ Definition dispatch_text (name : string) (a : list tok) : option (list tok * lis
             | Some v2 => match spec_fields 4 v2 with Some f => tstr (spec_greg_str 4 f [43;48;48;58;48;48]) | None => nospec end
             | None => nospec end)
   | "fmt_debug"%string, [TL s] =>
-      Some (match format_from_str s with inl f => tstr (format_debug f) | inr UnknownFormat => [TErr 1] | inr (UnknownToken c) => [TErr 2; TZ c] end, nospec)
+      Some (match format_from_str s with inl f => tstr (format_debug f) | inr UnknownFormat => [TErr 1] | inr (UnknownToken c) => [TErr 2; TZ c] end, nopanic)
   | "fmt_const"%string, [TZ k] =>
       (* each predefined format is the format string it documents *)
       Some (tstr (format_debug (predefined_by_index k)),
@@ -579,7 +581,7 @@ Definition dispatch_text (name : string) (a : list tok) : option (list tok * lis
       Some (match format_from_str fs with
             | inl f => trender (if mode =? 0 then formatter_new e f else formatter_with_timezone e (from_parts oc on) f)
             | inr _ => [TErr 9] end,
-            if mode =? 0 then spec_render t (pval c n) 0 fs
+            if mode =? 0 then (match spec_render t (pval c n) 0 fs with [TNoSpec] => nopanic | r => r end)
             else let v' := pval c n + pval oc on in if in_rangev v' then spec_render t v' (pval oc on) fs else nospec)
   | "fmt_render_const"%string, [TZ c; TZ n; TZ t; TZ oc; TZ on; TZ mode; TZ k] =>
       let t := norm_ts t in let e := mk_epoch c n t in let f := predefined_by_index k in
@@ -589,7 +591,112 @@ Definition dispatch_text (name : string) (a : list tok) : option (list tok * lis
   | _, _ => None
   end.
 
+(* ------------------------------------------------------------------ text: parsers ---- *)
+Definition tpres {A} (f : A -> list tok) (r : pres A) : list tok :=
+  match r with POk x => TZ 1 :: f x | PErr k => [TErr k] | PPanic => [TPanic] | PUnmodelled => nospec end.
+Definition tlexf (r : lexf) : list tok :=
+  match r with LexErr => [TZ 0] | LexVal x => [TZ 1; TZ (if f_is_nan x then 9221120237041090560 else f_to_bits x)] | LexUnmodelled => nospec end.
+Definition topt_z (o : option Z) : list tok := match o with Some v => [TZ 1; TZ v] | None => [TZ 0] end.
+
+(* the class of formats for which the parse-back clause of C19 is claimed: tokens Y m d H M S f each exactly once plus any of
+   j A a B b T... no: only tokens whose text determines the epoch and that a separator-driven parser can split:
+   every token is followed by at least one separator character that cannot be part of the next field (not a digit, not a
+   letter), no optional tokens, no %z, no %T before the end, and Y m d H M S f all present. *)
+Fixpoint fmt_tokens (fs : str) : list (Z * nat) :=   (* (token letter, number of separator characters after it) *)
+  match fs with
+  | 37 :: l :: rest =>
+      let fix seps (r : str) (k : nat) : nat := match r with c :: r' => if c =? 37 then k else seps r' (S k) | [] => k end in
+      (l, seps rest 0%nat) :: fmt_tokens rest
+  | _ :: rest => fmt_tokens rest
+  | [] => []
+  end.
+Definition sep_is_safe (c : Z) : bool := negb (is_numeric c) && negb (is_ascii_alpha c) && negb (c =? 63) && negb (c =? 37) && negb (c =? 43) && negb (c =? 45).
+Definition roundtrippable (fs : str) : bool :=
+  let toks := fmt_tokens fs in
+  let letters := map fst toks in
+  forallb (fun l => existsb (Z.eqb l) letters) [89; 109; 100; 72; 77; 83; 102] &&      (* Y m d H M S f present *)
+  forallb (fun l => (count_occ Z.eq_dec letters l <=? 1)%nat) [89; 109; 100; 72; 77; 83; 102; 106; 65; 97; 66; 98; 84] &&
+  forallb (fun l => existsb (Z.eqb l) [89; 109; 100; 72; 77; 83; 102]) letters &&      (* only those seven: names, %j, %T, %z interplay is not claimed *)
+  forallb sep_is_safe (filter (fun c => negb (c =? 37)) (flat_map (fun c => [c]) (let fix strip (r : str) : str := match r with 37 :: _ :: r' => strip r' | c :: r' => c :: strip r' | [] => [] end in strip fs))) &&
+  forallb (fun t => (1 <=? snd t)%nat) (removelast toks) &&
+  match fs with 37 :: _ => true | _ => false end.
+
+Definition dispatch_parse (name : string) (a : list tok) : option (list tok * list tok) :=
+  match name, a with
+  | "p_epoch"%string, [TL s] => Some (tpres tepoch (epoch_from_str s), nopanic)
+  | "p_greg"%string, [TL s] => Some (tpres tepoch (from_gregorian_str s), nopanic)
+  | "p_dur"%string, [TL s] => Some (tpres tdur (duration_from_str s), nopanic)
+  | "p_ts"%string, [TL s] => Some (match ts_from_str s with Some t => [TZ 1; TZ (ts_id t)] | None => [TErr E_TimeSystem] end, nopanic)
+  | "p_wd"%string, [TL s] => Some (match weekday_from_str s with Some w => [TZ 1; TZ w] | None => [TErr E_UnknownWeekday] end, nopanic)
+  | "p_month"%string, [TL s] => Some (match month_from_str s with Some m => [TZ 1; TZ m] | None => [TErr E_UnknownMonthName] end, nopanic)
+  | "lex_i32"%string, [TL s] => Some (topt_z (lex_i32 s), nopanic)
+  | "lex_i64"%string, [TL s] => Some (topt_z (lex_i64 s), nopanic)
+  | "lex_u64"%string, [TL s] => Some (topt_z (lex_int false 0 U64_MAX s), nopanic)
+  | "lex_f64"%string, [TL s] => Some (tlexf (lex_f64 s), nopanic)
+  (* round trips: render with the model of the formatter, parse with the model of the parser; spec: the same epoch / duration *)
+  | "rt_disp"%string, [TZ c; TZ n; TZ t] =>
+      let t := norm_ts t in let e := mk_epoch c n t in
+      Some (tpres tepoch (epoch_from_str (display_epoch e)),
+            match spec_fields t (pval c n) with
+            | Some (y, _, _, _, _, _, _) => if (1 <=? y) && (y <=? 9999) then TZ 1 :: sdur (pval c n) ++ [TZ t] else nospec
+            | None => nospec end)
+  | "rt_rfc3339"%string, [TZ c; TZ n] =>
+      let e := mk_epoch c n 4 in
+      Some (match to_rfc3339 e with Some s => tpres tepoch (epoch_from_str s) | None => nospec end,
+            match spec_fields 4 (pval c n) with
+            | Some (y, _, _, _, _, _, _) => if (1 <=? y) && (y <=? 9999) then TZ 1 :: sdur (pval c n) ++ [TZ 4] else nospec
+            | None => nospec end)
+  | "rt_iso"%string, [TZ c; TZ n; TZ t] =>
+      let t := norm_ts t in let e := mk_epoch c n t in
+      Some (match formatter_new e (predefined_by_index 0) with ROk s => tpres tepoch (epoch_from_str s) | _ => nospec end,
+            match spec_fields t (pval c n) with
+            | Some (y, _, _, _, _, _, _) => if (1 <=? y) && (y <=? 9999) then TZ 1 :: sdur (pval c n) ++ [TZ t] else nospec
+            | None => nospec end)
+  | "rt_dur"%string, [TZ c; TZ n] =>
+      Some (tpres tdur (duration_from_str (display_duration (from_parts c n))),
+            if Z.abs (pval c n) <=? 320000000000000000000 then TZ 1 :: sdur (pval c n) else nospec)
+  (* ISO 8601 / RFC 3339 text built from fields: date T time [.frac(k digits)] (Z | +hh:mm | -hh:mm | nothing) [ scale] *)
+  | "iso_parse"%string, [TZ y; TZ mo; TZ d; TZ h; TZ mi; TZ sec; TZ frac; TZ k; TZ form; TZ oh; TZ om; TZ sfx; TZ tsep] =>
+      let digits := fmt_int (Z.to_nat k) frac in
+      let base := fmt_int 4 y ++ [45] ++ fmt_int 2 mo ++ [45] ++ fmt_int 2 d ++ [if tsep =? 0 then 84 else 32] ++
+                  fmt_int 2 h ++ [58] ++ fmt_int 2 mi ++ [58] ++ fmt_int 2 sec ++ (if k =? 0 then [] else [46] ++ digits) in
+      let tzs := if form =? 0 then [] else if form =? 1 then [90] else if form =? 2 then [43] ++ fmt_int 2 oh ++ [58] ++ fmt_int 2 om
+                 else [45] ++ fmt_int 2 oh ++ [58] ++ fmt_int 2 om in
+      let t := norm_ts sfx in
+      let text := base ++ tzs ++ (if sfx =? 99 then [] else [32] ++ spec_ts_name t) in
+      let tsc := if sfx =? 99 then 4 else t in
+      Some (tpres tepoch (epoch_from_str text),
+            let off := (oh * 3600 + om * 60) * NS_PER_S in
+            let shift := if form =? 2 then - off else if form =? 3 then off else 0 in
+            let v := civil_ns y mo d h mi sec (frac * 10 ^ (9 - k)) - spec_gregorian_zero tsc + shift in
+            if valid_dateb y mo d && (1 <=? y) && (y <=? 9999) && (h <? 24) && (mi <? 60) && (sec <? 60) && in_rangev v
+            then TZ 1 :: sdur v ++ [TZ tsc] else nospec)
+  | "p_fmt"%string, [TL fs; TL s] => Some (tpres tepoch (from_format_str s fs), nopanic)
+  | "p_fmt_const"%string, [TZ k; TL s] => Some (tpres tepoch (format_parse (predefined_by_index k) s), nopanic)
+  (* render a UTC epoch with a format, parse the text with the same format: the epoch comes back when the format has no
+     optional token, contains the full date and time, and never puts two numeric tokens next to each other *)
+  | "rt_fmt"%string, [TZ c; TZ n; TL fs] =>
+      let e := mk_epoch c n 4 in
+      Some (match format_from_str fs with
+            | inl f => match formatter_new e f with ROk s => tpres tepoch (format_parse f s) | _ => nospec end
+            | inr _ => nospec end,
+            match spec_fields 4 (pval c n) with
+            | Some (y, _, _, _, _, _, _) =>
+                if (1 <=? y) && (y <=? 9999) && roundtrippable fs then TZ 1 :: sdur (pval c n) ++ [TZ 4] else nopanic
+            | None => nopanic end)
+  | "rt_fmt_const"%string, [TZ c; TZ n; TZ k] =>
+      let e := mk_epoch c n 4 in let f := predefined_by_index k in
+      Some (match formatter_new e f with ROk s => tpres tepoch (format_parse f s) | _ => nospec end,
+            match spec_fields 4 (pval c n) with
+            | Some (y, _, _, _, _, _, _) =>
+                if (1 <=? y) && (y <=? 9999) && ((k =? 0) || (k =? 2) || (k =? 8)) then TZ 1 :: sdur (pval c n) ++ [TZ 4] else nopanic
+            | None => nopanic end)
+  | "uni_class"%string, [TZ c] => Some ([tb (is_numeric c); tb (is_whitespace c); tb (is_ascii_alpha c)], nospec)
+  | _, _ => None
+  end.
+
 Definition dispatch (name : string) (a : list tok) : option (list tok * list tok) :=
+  match dispatch_parse name a with Some r => Some r | None =>
   match dispatch_text name a with Some r => Some r | None =>
   match dispatch_views name a with Some r => Some r | None =>
   match dispatch_float name a with Some r => Some r | None =>
@@ -599,7 +706,7 @@ Definition dispatch (name : string) (a : list tok) : option (list tok * list tok
             | Some r => Some r
             | None => dispatch_calendar name a
             end
-  end end end end.
+  end end end end end.
 
 (* decimal I/O helpers for the driver, so that the OCaml side needs no bignum code *)
 
